@@ -71,6 +71,26 @@ def f_exact(fr):
         return False
 
 
+# range guard: complex arithmetic squares magnitudes internally, so intermediates beyond 1e+-140 may overflow / underflow
+# in floating point although the final value is moderate
+RANGE = {'hi': 0.0, 'lo': float('inf')}
+
+
+def note_magnitude(m):
+    if m > RANGE['hi']:
+        RANGE['hi'] = m
+    if 0 < m < RANGE['lo']:
+        RANGE['lo'] = m
+
+
+def range_reset():
+    RANGE['hi'], RANGE['lo'] = 0.0, float('inf')
+
+
+def range_risky():
+    return RANGE['hi'] > 1e140 or RANGE['lo'] < 1e-140
+
+
 class V(object):
     """value = exact Gaussian rational (re, im) or None, float approximation, amplification in ulps,
     ct = the implementation holds it as a Python complex (signed zeros then decide the side of a branch cut)"""
@@ -81,6 +101,9 @@ class V(object):
             ap = complex(ap.real, 0.0)          # the oracle itself never carries a negative zero
         self.ex, self.ap, self.amp = ex, ap, amp
         self.ct = (ap.imag != 0) if ct is None else ct
+        note_magnitude(abs(ap))
+        if ex is None and ap == 0:
+            raise Skip('range')                 # an inexact computation that underflowed to zero
 
     @staticmethod
     def exact(re, im=Fraction(0), amp=None, ct=None):
@@ -130,6 +153,10 @@ def _mk(exv, ap_fallback, amp, exact_inputs, ct):
 
 
 def v_add(a, b, sign=1):
+    if _exact_zero(b):
+        return V(a.ex, a.ap, a.amp, a.ct or b.ct)
+    if _exact_zero(a):
+        return V(b.ex, b.ap, b.amp, a.ct or b.ct) if sign == 1 else V(v_neg(b).ex, v_neg(b).ap, b.amp, a.ct or b.ct)
     exv = None
     if a.ex is not None and b.ex is not None:
         exv = (a.ex[0] + sign * b.ex[0], a.ex[1] + sign * b.ex[1])
@@ -157,7 +184,13 @@ def v_neg(a):
     return V(None, -a.ap, a.amp, a.ct)
 
 
+def _exact_zero(a):
+    return a.ex is not None and a.ex[0] == 0 and a.ex[1] == 0 and a.amp == 0
+
+
 def v_mul(a, b):
+    if _exact_zero(a) or _exact_zero(b):
+        return V.exact(0, 0, 0.0, a.ct or b.ct)         # 0 * x is exact in floating point as well
     exv = None
     if a.ex is not None and b.ex is not None:
         (p, q), (r, s) = a.ex, b.ex
@@ -179,6 +212,8 @@ def v_inv(b):
 def v_div(a, b):
     if b.is_zero():
         raise MathErr('divzero')
+    if _exact_zero(a):
+        return V.exact(0, 0, 0.0, a.ct or b.ct)
     exv = None
     if a.ex is not None and b.ex is not None:
         (p, q), (r, s) = a.ex, b.ex
@@ -206,25 +241,33 @@ def v_pow(a, e):
         if n < 0 and a.is_zero():
             raise MathErr('divzero')
         if n == 0:
-            return V.exact(1)
+            return V.exact(1, 0, None, a.ct or e.ct)
         if a.ex is not None:
             bits = max(x.numerator.bit_length() + x.denominator.bit_length() for x in a.ex)
             if abs(n) * bits > 20000:
                 raise Skip('range')
             z = _gpow(a.ex, abs(n))
+            try:
+                note_magnitude(abs(complex(float(z[0]), float(z[1]))))
+            except OverflowError:
+                raise Skip('range')
             if n < 0:
                 d = z[0] * z[0] + z[1] * z[1]
                 z = (z[0] / d, -z[1] / d)
             return _mk(z, None, abs(n) * (a.amp + 2), a.amp == 0, a.ct or e.ct)
         try:
-            ap = a.ap ** n
+            big = abs(a.ap) ** abs(n)
+            ap = (a.ap ** n) if (a.ct or e.ct) else complex(a.ap.real ** n)
         except (OverflowError, ZeroDivisionError):
             raise Skip('range')
+        note_magnitude(big)
         return V(None, _fin(ap), abs(n) * (a.amp + 2), a.ct or e.ct)
     # non-integer (or inexact) exponent: principal value exp(e * log a), in floating point
     if a.is_zero():
-        if e.is_real() and e.ap.real > 0:
+        if e.is_real() and e.ap.real > 1e-9:
             return V.exact(0, 0, None, a.ct or e.ct)
+        if e.amp > 0 and abs(e.ap) < 1e-9:
+            raise Skip('zero-test on inexact data')         # 0 ** (something that may or may not be exactly 0)
         raise MathErr('divzero')
     near_cut = a.ap.real < 0 and abs(a.ap.imag) <= 1e-6 * abs(a.ap.real)
     if near_cut and a.ct:
@@ -236,7 +279,10 @@ def v_pow(a, e):
         else:
             ap = cmath.exp(e.ap * cmath.log(a.ap))
             ct = True
-        la = abs(cmath.log(a.ap))
+        lg = cmath.log(a.ap)
+        la = abs(lg)
+        if abs(e.ap.real * lg.real) > 300 or abs(e.ap.imag * lg.imag) > 300:
+            raise Skip('range')
     except (OverflowError, ValueError, ZeroDivisionError):
         raise Skip('range')
     amp = abs(e.ap) * a.amp + abs(e.ap) * la * e.amp + 4 + abs(e.ap) * la
@@ -1091,6 +1137,10 @@ def run_impl(s, var_key, suf_key, max_dim=None):
     calls = []
     fns = wrapped_functions(calls)
     st, r = core.guarded(I['ex'].evaluator, s, variables, fns, suffixes, max_array_dim=max_dim)
+    if st == 'timeout':
+        # the alarm is wall-clock: on a loaded machine a harmless call can exceed it; only a repeated timeout counts
+        del calls[:]
+        st, r = core.guarded(I['ex'].evaluator, s, variables, fns, suffixes, max_array_dim=max_dim, seconds=120)
     res = {'status': st, 'calls': len(calls)}
     g = graph_term(calls)
     res['graph'] = g
@@ -1267,6 +1317,7 @@ def array_amp(want):
 
 def expected_of(e, var_key):
     """('value', complex, amp) | ('array', nested V) | ('matherr', kind) | ('skip', reason)"""
+    range_reset()
     try:
         if has_array(e):
             if not pure_array(e):
@@ -1284,7 +1335,47 @@ def expected_of(e, var_key):
         return ('skip', 'range')
     if v.amp > AMP_LIMIT:
         return ('skip', 'ill-conditioned')
+    if range_risky():
+        return ('skip', 'range')
     return ('value', v.ap, v.amp)
+
+
+def plain_expected(exp):
+    """JSON-able form of an oracle prediction (kept in witnesses for replay)"""
+    def pl(w):
+        return [pl(x) for x in w] if isinstance(w, list) else repr(w.ap)
+    if exp[0] == 'value':
+        return {'kind': 'value', 'value': repr(exp[1])}
+    if exp[0] == 'array':
+        return {'kind': 'array', 'value': pl(exp[1])}
+    return {'kind': exp[0], 'value': str(exp[1])}
+
+
+def matches_expected(r, pe):
+    """does the implementation's result r agree with a stored plain expectation?"""
+    def cplx(txt):
+        return complex(txt.strip('()').replace(' ', '')) if isinstance(txt, str) else txt
+
+    def arr_close(v, w):
+        I = impl()
+        if isinstance(w, list):
+            if not (isinstance(v, I['MathArray']) or isinstance(v, (list, tuple))):
+                return False
+            xs = list(v)
+            return len(xs) == len(w) and all(arr_close(x, y) for x, y in zip(xs, w))
+        return (not isinstance(v, I['MathArray'])) and close(v, cplx(w))
+    if pe['kind'] == 'value':
+        return r['status'] == 'ret' and r['cls'] == 'value' and close(r['value'], cplx(pe['value']))
+    if pe['kind'] == 'array':
+        return r['status'] == 'ret' and r['cls'] == 'value' and arr_close(r['value'], pe['value'])
+    if pe['kind'] == 'matherr':
+        if r['status'] == 'ret' and r['cls'] == 'value':
+            try:
+                return not cmath.isfinite(complex(r['value']))
+            except (TypeError, ValueError):
+                return False
+        return not (r['status'] == 'exc' and r['cls'].startswith('ESCAPED'))
+    return True
 
 
 def check_value(r, exp):
@@ -1324,8 +1415,8 @@ def is_parse_error(r):
 def sizes(ctx):
     tier, esc = ctx['tier'], ctx['escalate']
     if tier == 'thorough':
-        return dict(leads12=('', '-', '+'), leads3=('', '-', '+'), seq4_basic=True, seq4_random=20736, leaf_sets=4,
-                    derivations=6000, renderings=6, invalid=3000, mutants=12000, graders=400)
+        return dict(leads12=('', '-', '+'), leads3=('', '-', '+'), seq4_basic=False, seq4_random=20736, leaf_sets=6,
+                    derivations=4000, renderings=6, invalid=3000, mutants=8000, graders=300)
     if esc:
         return dict(leads12=('', '-', '+'), leads3=('', '-'), seq4_basic=True, seq4_random=1500, leaf_sets=1,
                     derivations=500, renderings=6, invalid=700, mutants=2000, graders=100)
@@ -1389,12 +1480,17 @@ def run_sequences(ctx, res, col, rng, sz):
         pick = rng.sample(all4, sz['seq4_random'])
     for seq in pick:
         seqs.append((rng.choice(['', '', '-']), seq))
-    n_violation = 0
+    n_cases = 0
     for idx, (lead, seq) in enumerate(seqs):
-        leaves = LEAF_SETS[idx % len(LEAF_SETS)] if sz['leaf_sets'] == 1 else None
-        for li, lv in enumerate(LEAF_SETS):
-            if leaves is not None and lv is not leaves:
-                continue
+        # quick: one leaf set per sequence (rotating); thorough: all of them for length <= 3, two for length 4
+        if sz['leaf_sets'] == 1:
+            chosen = [idx % len(LEAF_SETS)]
+        elif len(seq) <= 3:
+            chosen = list(range(len(LEAF_SETS)))
+        else:
+            chosen = [idx % len(LEAF_SETS), (idx + 3) % len(LEAF_SETS)]
+        for li in chosen:
+            lv = LEAF_SETS[li]
             var_key = ('int', 'dec', 'cplx')[(idx + li) % 3]
             s = lead + lv[0] + ''.join(c + l for c, l in zip(seq, lv[1:]))
             r = run_impl(s, var_key, 'default')
@@ -1402,16 +1498,49 @@ def run_sequences(ctx, res, col, rng, sz):
             exp = expected_of(e, var_key)
             col.add(s, var_key, 'default', r, stream='sequence', exp=exp)
             res.oracle_evals += 1
+            n_cases += 1
             col.count('seq_expected:' + exp[0])
             if lead == '+':
                 continue            # leading plus: correspondence only
             bad = check_value(r, exp)
             if bad:
-                n_violation += 1
-                witness(res, 'sequence', s, var_key, 'default', bad, expected=repr(exp[1]))
+                witness(res, 'sequence', s, var_key, 'default', bad, expected=plain_expected(exp))
             if exp[0] == 'value':
                 res.nontrivial.add(('seq', lead, seq, tuple(lv), var_key))
-    col.count('sequence_cases', len(seqs))
+    col.count('sequence_strings', n_cases)
+    col.count('operator_sequences', len(seqs))
+
+
+def run_literals(ctx, res, col, rng):
+    """every numeral format alone, with every suffix, and every name / default constant alone (exhaustive, small)"""
+    forms = NUM_FORMS + ['1E2', '1e+2', '1e—2', '007', '0.0', '00.50', '12345678.9', '1e-5', '9.99E+3']
+    for t in forms:
+        cases = [(('num', t, None), 'default')] + [(('num', t, u), 'metric') for u in sorted(SUFFIX_VALUES)]
+        for e, suf_key in cases:
+            if '—' in t and e[2]:
+                continue
+            for var_key in ('dec',):
+                s = ''.join(tokens(e))
+                r = run_impl(s, var_key, suf_key)
+                exp = expected_of(e, var_key)
+                col.add(s, var_key, suf_key, r, stream='literal', exp=exp)
+                res.oracle_evals += 1
+                bad = check_value(r, exp)
+                if bad:
+                    witness(res, 'derivation', s, var_key, suf_key, bad, expected=plain_expected(exp), canonical=s)
+                res.nontrivial.add(('lit', s))
+    for var_key in ('int', 'dec', 'cplx'):
+        for n in NAMES + CONST_NAMES:
+            e = ('var', n)
+            r = run_impl(n, var_key, 'default')
+            exp = expected_of(e, var_key)
+            col.add(n, var_key, 'default', r, stream='literal', exp=exp)
+            res.oracle_evals += 1
+            bad = check_value(r, exp)
+            if bad:
+                witness(res, 'derivation', n, var_key, 'default', bad, expected=plain_expected(exp), canonical=n)
+            res.nontrivial.add(('name', n, var_key))
+    col.count('literal_strings', len(forms) * (1 + len(SUFFIX_VALUES)) + 3 * len(NAMES + CONST_NAMES))
 
 
 def run_derivations(ctx, res, col, rng, sz):
@@ -1440,7 +1569,7 @@ def run_derivations(ctx, res, col, rng, sz):
             bad = check_value(r, exp)
             if bad:
                 witness(res, 'derivation', s, var_key, suf_key, bad + ' (rendering: %s)' % style,
-                        expected=repr(exp[1]), canonical=''.join(tokens(e)))
+                        expected=plain_expected(exp), canonical=''.join(tokens(e)))
             # rendering invariance (where the oracle declines to predict the value: same outcome class only)
             if style == 'canon':
                 canon_val = r
@@ -1521,7 +1650,7 @@ def run_front_door(ctx, res, col, rng):
         res.oracle_evals += 1
         if r['cls'] != want_cls:
             witness(res, 'case', s, 'int', 'metric', 'names must resolve case-sensitively: %r gave %s %r, expected %s' %
-                    (s, r['cls'], r.get('value', r.get('exc')), want_cls))
+                    (s, r['cls'], r.get('value', r.get('exc')), want_cls), want_cls=want_cls)
     # str.strip() table of the model == Python's, exhaustively
     ws = [c for c in range(0x110000) if chr(c).isspace()]
     model_ws = list(range(9, 14)) + list(range(28, 33)) + [133, 160, 5760] + list(range(8192, 8203)) + [8232, 8233, 8239, 8287, 12288]
@@ -1582,6 +1711,7 @@ def run(ctx):
                 'plain operators, a sample (thorough: all) of the 12^4 others, over leaf sets chosen so that groupings differ; '
                 'derivations: random grammar derivations to depth 6 x renderings; invalid strings by construction; non-trivial = '
                 'distinct strings whose documented value the oracle predicts (or which must be rejected)')
+    run_literals(ctx, res, col, rng)
     run_sequences(ctx, res, col, rng, sz)
     run_derivations(ctx, res, col, rng, sz)
     run_invalid(ctx, res, col, rng, sz)
@@ -1631,29 +1761,30 @@ def replay(w):
         text = 'evaluator(%r) [vars=%s, suffixes=%s] -> %s; %s' % (s, var_key, suf_key, got, w.get('what'))
         if kind == 'rendering' and canon is not None:
             a = run_impl(canon, var_key, suf_key)
-            same = a['cls'] == r['cls'] and (a['cls'] != 'value' or close(r['value'], complex(a['value'])))
+            try:
+                same = a['cls'] == r['cls'] and (a['cls'] != 'value' or close(r['value'], complex(a['value'])))
+            except (TypeError, ValueError):
+                same = a['cls'] == r['cls'] and repr(a.get('value')) == repr(r.get('value'))
             return (not same), text + '; canonical %r -> %s %r' % (canon, a['cls'], a.get('value', a.get('exc')))
         if kind == 'case':
-            return True, text
-        exp = w.get('expected')
-        try:
-            want = complex(eval(exp, {'__builtins__': {}}, {})) if exp else None     # repr of a complex / string
-        except Exception:       # noqa
-            want = None
-        if want is not None:
-            bad = not (r['status'] == 'ret' and r['cls'] == 'value' and close(r['value'], want))
-            return bad, text
+            return r['cls'] != w.get('want_cls'), text
+        pe = w.get('expected')
+        if isinstance(pe, dict):
+            return (not matches_expected(r, pe)), text
         return (r['status'] == 'ret' and r['cls'] == 'value'), text
     return False, 'unknown witness kind %r' % kind
 
 
-LEVEL_TEXT = ('Theorems about the executable lexer/parser/evaluator model, for expressions of any size and nesting: parsing the '
-              'rendering of any derivation of the documented grammar yields exactly the tree with the documented precedence and '
-              'associativity (^ tightest and right-associative with optional exponent sign, then unary minus, ||, * /, + -), '
-              'evaluating that tree yields the documented binary semantics, redundant parentheses and spaces do not matter, '
-              'and token strings with doubled operators, juxtaposition, empty brackets or argument lists, or trailing operators '
-              'are rejected. The model is tied to MathParser / evaluator() by differential correspondence at tree level '
-              '(ParseResults shape and name sets) and value level on every run.')
+LEVEL_TEXT = ('Theorems about the executable lexer/parser/evaluator model, for formulas of any size and nesting. String level: for every '
+              'derivation of the documented grammar (numbers in every literal format with or without suffix, plain/subscripted/'
+              'tensor-indexed/primed names, functions, arrays, + - * / ^ ||, unary minus, parentheses) and every rendering of it '
+              '(only the parentheses the documented precedence requires plus redundant ones, TAB/LF/CR runs between tokens, spaces '
+              'anywhere) the front door returns exactly the documented value: ^ tightest and right-associative with optional '
+              'exponent sign, then unary minus, ||, * /, + - (left-associative). The accepted token lists are exactly the prints of '
+              'well-formed trees, so doubled operators, juxtaposition, empty brackets/argument slots, leading/trailing operators '
+              'and foreign characters are rejected for inputs of any length; blank input is nan; names resolve exactly. The model is '
+              'tied to MathParser / evaluator() by differential correspondence (ParseResults shape, name sets, outcome classes, '
+              'values) on every run and to the grammar/suffix tables of the source by a regenerated Gallina term.')
 LEVEL_NOTE = ('Exact Gaussian-rational arithmetic with integer exponents; floating-point rounding, non-integer powers, function bodies '
               'and array arithmetic are oracles / outside the model (guard-banded and counted). pyparsing is replaced by a '
               'lexer + precedence parser validated against the real parser on every run; no axioms.')
